@@ -105,6 +105,11 @@ def join(a, b):
         return a
     if isinstance(a, tuple) and isinstance(b, tuple) and len(a) == len(b):
         return tuple(join(x, y) for x, y in zip(a, b))
+    if isinstance(a, tuple) and a and not isinstance(b, tuple):
+        # an opaque container value joined with a tuple: any element may come from it
+        return tuple(join(x, b) for x in a)
+    if isinstance(b, tuple) and b and not isinstance(a, tuple):
+        return tuple(join(a, y) for y in b)
     return flat(a) | flat(b)
 
 
@@ -138,6 +143,7 @@ class Summary:
         self.callees = set()    # resolved FuncInfo callees
         self.callargs = {}      # id(call node) -> (call node, [arg AVs], {kw: AV})
         self.dangling = []      # (call node, 'cls.X' text): attribute of a known class that does not exist
+        self.assign_avs = {}    # id(Assign node) -> AV of the assigned value
 
     def key(self):
         return (tuple(sorted((p, tuple(sorted(ws))) for p, ws in self.writes.items())),
@@ -408,6 +414,7 @@ class _Walker:
     def stmt(self, st, env):
         if isinstance(st, ast.Assign):
             av = self.ev(st.value, env)
+            self.s.assign_avs[id(st)] = av
             for t in st.targets:
                 self.bind(t, av, env, st, st.value)
             return env
@@ -813,6 +820,12 @@ class _Walker:
                     mode = 'acc'
             self.s.events.append(Event(flat(out_av), mode, 'lib:%s(out=)' % dotted, c))
             return flat(out_av)
+        for k in c.keywords:
+            if k.arg and k.arg.startswith('overwrite') and not (isinstance(k.value, ast.Constant) and not k.value.value):
+                # scipy.linalg.*(a, overwrite_a=True) / overwrite_b / overwrite_ab: LAPACK works in the caller's array
+                tgt = args[1] if (k.arg == 'overwrite_b' and len(args) > 1) else first
+                if flat(tgt):
+                    self.s.events.append(Event(flat(tgt), 'ovw', 'lib:%s(%s=)' % (dotted, k.arg), c))
         if name in NP_MUTATORS:
             if flat(first):
                 self.s.events.append(Event(flat(first), 'ovw', 'lib:' + dotted, c))
